@@ -190,7 +190,7 @@ func TestProduct(t *testing.T) {
 		}
 		return c
 	}, checkProduct)
-	vk.Run(t, "product", vk.Opts{Quick: 2500, Thorough: 60000, NoCrumb: true}, func(t *rapid.T) prodCase {
+	vk.Run(t, "product", vk.Opts{Quick: 4000, Thorough: 60000, NoCrumb: true}, func(t *rapid.T) prodCase {
 		dir := rapid.Bool().Draw(t, "dir")
 		classes := []string{"sparse", "half", "dense", "tree", "cycle"}
 		conts := []int{contOrdered, contSimple}
